@@ -43,7 +43,7 @@ func main() {
 	r.Finish(rule)
 }
 
-func rounds(r *vlib.Run) int { return r.N(1, 16) }
+func rounds(r *vlib.Run) int { return r.N(1, 36) } // thorough: 36 × 13 scripts ≈ 12 min
 
 func groups(r *vlib.Run) int { return r.N(4, 4) }
 
@@ -117,7 +117,7 @@ func parent(r *vlib.Run) {
 	r.Require("upstream/udp/refused", 3)
 	r.Require("upstream/tcp/tcp-stall", 3)
 	r.Require("upstream/tcp/tcp-reset", 2)
-	r.Require("pattern/queue-expiry", 6*int64(rounds(r))) // the one-worker / one-slot ready-queue burst (FINDINGS.md #1)
+	r.Require("pattern/queue-expiry", 6*int64(rounds(r))) // the one-worker / one-slot ready-queue burst (legal uncounted shedding, see FINDINGS.md "Not findings")
 	r.Require("pattern/control", 40*nScripts)        // the always-answerable control client ran beside every script
 	r.Require("junk_counted_by_server", 4)
 	r.Require("quiescence_reached", nScripts)
